@@ -163,3 +163,17 @@ def parse_handler_classes(handler_type, resolve) -> Optional[Set[str]]:
             return None
         out.add(c)
     return out
+
+
+# calls whose result is never None (used for None-ness tracking of locals along paths)
+NON_NONE_CALLS = {
+    'os.open', 'os.dup', 'os.getpid', 'os.fspath', 'time.time', 'time.monotonic', 'time.perf_counter',
+    'id', 'len', 'str', 'int', 'float', 'bool', 'tuple', 'list', 'dict', 'set', 'frozenset', 'object', 'repr', 'iter', 'range',
+    'asyncio.Event', 'asyncio.Lock', 'asyncio.Semaphore', 'asyncio.Queue', 'asyncio.get_running_loop',
+    'asyncio.get_event_loop', 'asyncio.new_event_loop', 'asyncio.create_task', 'asyncio.ensure_future',
+    'asyncio.shield', 'asyncio.wrap_future', 'asyncio.run_coroutine_threadsafe', 'asyncio.gather', 'asyncio.wait_for',
+    'asyncio.Future', 'asyncio.Task',
+    'threading.Lock', 'threading.RLock', 'threading.Event', 'threading.Thread', 'threading.Semaphore',
+    'functools.partial', 'queue.Queue', 'collections.deque', 'itertools.tee', 'itertools.islice',
+    'concurrent.futures.ThreadPoolExecutor', 'weakref.WeakKeyDictionary', 'weakref.WeakValueDictionary',
+}
